@@ -90,7 +90,8 @@ def scenario(name):
         s['links'] = [{'t': 'J'}, {'t': 'W', 'f': 0.3}]
         s['init'] = {'theta': [0.0, 'rad'], 'w': [0.0, 'rad/s']}
         s['loadf'] = ['mix', 0.0, 0.0, 0.0, 6.0]
-        s['rules'] = [{'r': 'constant', 'start': [0.3125, 'sec'], 'duration': [0.25, 'sec'], 'value': 0},
+        s['rules'] = [{'r': 'constant', 'start': [0.0, 'sec'], 'duration': [0.1875, 'sec'], 'value': 0.03},   # inside the dead band
+                      {'r': 'constant', 'start': [0.3125, 'sec'], 'duration': [0.25, 'sec'], 'value': 0},
                       {'r': 'constant', 'start': [0.6875, 'sec'], 'duration': [10.0, 'sec'], 'value': -0.8}]
         s['load_unit'] = 'mNm'
     return s
